@@ -861,9 +861,50 @@ def numeric_key_rule(fam, mod, rep, rid, methods=("validate", "parseAfterValidat
     signature to the runtime as an ordinary validator: `Record<number, T>` and `{[k: number]: T}` arrive as
     `TypeofRuntype("number")`, `Record<1 | 2, T>` as number constants.  Applied to the name itself such a validator
     rejects every key (`typeof "1" === "number"` is false), so the type would only accept `{}`.  Wherever a method of
-    a class with an index-signature field applies a key validator to a property name, the numeric reading must be
-    offered as well: the same disjunction contains a second application to `Number(name)` (helpers folded back in)."""
-    n = 0
+    a class with an index-signature field - or a local helper it reaches - applies a key validator to a property
+    name, the same function also applies it to the numeric reading of that name (`Number(name)`, possibly through a
+    local), and not only when the first application succeeded (the two are not the operands of one `&&`).  Every one
+    of the three methods reaches such an application."""
+    n_apps = 0
+    seen_scopes = {}
+
+    def numeric_base(e, al):
+        e = unparen(e)
+        if e.get("type") == "Identifier" and e["value"] in al:
+            return numeric_base(al[e["value"]], {})
+        if e.get("type") == "CallExpression" and s(e["callee"]) in ("Number", "parseFloat", "Number.parseFloat") and e["arguments"]:
+            return s(e["arguments"][0]["expression"])
+        if e.get("type") == "UnaryExpression" and e["operator"] == "+":
+            return s(e["argument"])
+        return None
+
+    def judge(fn, kv_texts, where):
+        """applications of the key validators `kv_texts` inside fn: [(call, ok)] for the applications to a NAME"""
+        al = {}
+        for x in walk(fn):
+            if x["type"] == "VariableDeclarator" and x["id"].get("type") == "Identifier" and x.get("init") is not None:
+                al.setdefault(x["id"]["value"], x["init"])
+        calls = []
+        for x in walk(fn):
+            mc = method_call(x) if x["type"] == "CallExpression" else None
+            if mc and mc[1] == "validate" and len(mc[2]) == 2 and (s(mc[0]) in kv_texts or s(mc[0]).endswith(".key")):
+                calls.append((x, s(mc[0]), mc[2][1]))
+        out = []
+        for x, kv, arg in calls:
+            if numeric_base(arg, al) is not None:
+                continue
+            partner = [y for y, kv2, a2 in calls if kv2 == kv and numeric_base(a2, al) == s(arg)]
+            ok = bool(partner)
+            if ok:
+                # not `name-application && numeric-application`
+                for b in walk(fn):
+                    if b["type"] == "BinaryExpression" and b["operator"] == "&&":
+                        inl = any(z is x for z in walk(b["left"]))
+                        inr = any(z is y for y in partner for z in walk(b["right"]))
+                        if inl and inr:
+                            ok = False
+            out.append((x, ok))
+        return out
     for cname in sorted(fam.concrete()):
         ixf = index_signature_field(fam, cname)
         if not ixf:
@@ -872,50 +913,43 @@ def numeric_key_rule(fam, mod, rep, rid, methods=("validate", "parseAfterValidat
             _, m = fam.resolve_method(cname, mname)
             if not m or m["function"].get("body") is None:
                 continue
-            fn = tsast.flatten_fn(mod, cname, m["function"])
-            parents = {}
-            for x in walk(fn):
-                for v in x.values() if isinstance(x, dict) else []:
-                    for c in (v if isinstance(v, list) else [v]):
-                        if isinstance(c, dict):
-                            parents[id(c)] = x
-
-            def numeric(e):
-                e = unparen(e)
-                if e.get("type") == "CallExpression" and s(e["callee"]) in ("Number", "parseFloat", "Number.parseFloat") and e["arguments"]:
-                    return s(e["arguments"][0]["expression"])
-                if e.get("type") == "UnaryExpression" and e["operator"] == "+":
-                    return s(e["argument"])
-                return None
-            calls = []
-            for x in walk(fn):
-                mc = method_call(x) if x["type"] == "CallExpression" else None
-                if mc and mc[1] == "validate" and s(mc[0]).endswith(".key") and len(mc[2]) == 2:
-                    calls.append((x, mc))
-            for x, mc in calls:
-                arg = mc[2][1]
-                if numeric(arg) is not None:
+            # scopes: the method and the local helpers it reaches, each with the parameters that receive `<sig>.key`
+            work = [(m["function"], frozenset(), cname, "%s.%s" % (cname, mname))]
+            reached = 0
+            visited = set()
+            while work:
+                fn, kv, owner, label = work.pop()
+                if (id(fn), kv) in visited or len(visited) > 60:
                     continue
-                n += 1
-                # the outermost `||` chain the call is a disjunct of
-                top = x
-                while True:
-                    p = parents.get(id(top))
-                    if p is None:
-                        break
-                    if p["type"] == "ParenthesisExpression" or (p["type"] == "BinaryExpression" and p["operator"] == "||"):
-                        top = p
+                visited.add((id(fn), kv))
+                for x, ok in judge(fn, kv, label):
+                    reached += 1
+                    key = (id(fn), s(x))
+                    if key not in seen_scopes:
+                        seen_scopes[key] = True
+                        n_apps += 1
+                        rep.ob(rid, "%s/key-validator-sees-numeric-reading#%d" % (label, sum(1 for k_ in seen_scopes if k_[0] == id(fn)) - 1), ok,
+                               "%s applies the key validator of an index signature to the property NAME only (%s): a numeric key type (`Record<number, T>`, `{[k: number]: T}`, `Record<1 | 2, T>`) arrives as a number validator and rejects every name, so the object type accepts nothing but {}" % (label, s(x)[:60]),
+                               mod.loc(fn), sample={"call": s(x)[:80]})
+                for c in walk(fn):
+                    if c["type"] != "CallExpression":
                         continue
-                    break
-                ok = False
-                for y in walk(top):
-                    mc2 = method_call(y) if y["type"] == "CallExpression" else None
-                    if mc2 and mc2[1] == "validate" and s(mc2[0]) == s(mc[0]) and len(mc2[2]) == 2 and numeric(mc2[2][1]) == s(arg):
-                        ok = True
-                rep.ob(rid, "%s.%s/key-validator-sees-numeric-reading#%d" % (cname, mname, sum(1 for c in calls if c[0] is not x and calls.index(c) < calls.index((x, mc)) and numeric(c[1][2][1]) is None)), ok,
-                       "%s.%s applies the key validator of an index signature to the property NAME only (%s): a numeric key type (`Record<number, T>`, `{[k: number]: T}`, `Record<1 | 2, T>`) arrives as a number validator and rejects every name, so the object type accepts nothing but {}" % (cname, mname, s(x)[:60]),
-                       mod.loc(m["function"]), sample={"call": s(x)[:80]})
-    rep.floor(rid, "applications of an index-signature key validator to a property name", n, 3)
+                    r = tsast.resolve_local_call(mod, owner, c)
+                    if r is None:
+                        continue
+                    h, h_owner = r
+                    hp = fn_params(h)
+                    kvh = set()
+                    for i_, a_ in enumerate(c["arguments"]):
+                        t_ = s(a_["expression"])
+                        if (t_.endswith(".key") or t_ in kv) and i_ < len(hp) and hp[i_]:
+                            kvh.add(hp[i_])
+                    nm = s(unparen(c["callee"])).split(".")[-1]
+                    work.append((h, frozenset(kvh), h_owner or owner, nm))
+            rep.ob(rid, "%s.%s/reaches-a-key-validator-application" % (cname, mname), reached > 0,
+                   "%s.%s never applies the key validator of its index signatures to a property name (directly or through a local helper): the rule lost its subject" % (cname, mname),
+                   mod.loc(m["function"]))
+    rep.floor(rid, "applications of an index-signature key validator to a property name", n_apps, 1)
 
 
 CMP_OPS = ("<", ">", "<=", ">=", "===", "!==", "==", "!=")
